@@ -238,12 +238,7 @@ func attrSliceEqual(a, b Attributes) bool {
 }
 
 func attrEqual(attrA, attrB Attributes) bool {
-	if attrA == nil && attrB == nil {
-		return true
-	}
-	if attrA == nil || attrB == nil {
-		return false
-	}
+	// A nil and an empty (reused) attribute list hold the same content.
 	if len(attrA) != len(attrB) {
 		return false
 	}
